@@ -113,6 +113,40 @@ theorem doTRX_converges (c : XCtx S) (n : XNet G) (m : Mem) (href : c.hasRef = t
 end lawful
 
 
+/-! ## … and so does the Manager over whatever `newNetworkProvider` returned (an error included) -/
+
+/-- the state after one more round of `DoTrafficRouting` on a healthy API server; `Q = none`: the provider cannot
+    be built -/
+def stepNetO (ops : StratOps S) (Q : Option (Provider S G)) (c : XCtx S) (m : Mem) (n : XNet G) : XNet G :=
+  (doTrafficRoutingX ops Q c Api.ok n m).net
+
+/-- `k` further rounds -/
+def iterNetO (ops : StratOps S) (Q : Option (Provider S G)) (c : XCtx S) (m : Mem) : Nat → XNet G → XNet G
+  | 0, n => n
+  | k + 1, n => iterNetO ops Q c m k (stepNetO ops Q c m n)
+
+theorem iterNetO_some (ops : StratOps S) (P : Provider S G) (c : XCtx S) (m : Mem) (k : Nat) (n : XNet G) :
+    iterNetO ops (some P) c m k n = iterNetX ops P c m k n := by
+  induction k generalizing n with
+  | zero => rfl
+  | succ k ih => exact ih (stepNetX ops P c m n)
+
+/-- **C07.iii (`refused_converges`)** — a configuration whose provider cannot be built settles at once: under the
+    hypotheses of `doTRX_converges`, `DoTrafficRouting` returns the error after at most 1 further round (the
+    round that puts the Services in place).  It never keeps retrying silently, and (`refused_doTR`) it never
+    touches a provider object. -/
+theorem refused_converges (ops : StratOps S) (c : XCtx S) (n : XNet G) (m : Mem) (href : c.hasRef = true)
+    (hstep : isStep ops c.strategy = true) (hex : n.stableExists = true)
+    (hw : ¬ (c.lastUpdate = .fresh ∧ c.doGrace > 0))
+    (hrev : c.noGen = true ∨ (c.stableRev ≠ "" ∧ c.canaryRev ≠ "")) :
+    ∃ k, k ≤ 1 ∧ settled (doTrafficRoutingX ops (none : Option (Provider S G)) c Api.ok
+      (iterNetO ops (none : Option (Provider S G)) c m k n) m) := by
+  obtain ⟨h1, h2⟩ := refused_is_reported (G := G) ops c n m href hstep hex hw hrev
+  cases hin : servicesInPlace c n
+  · exact ⟨1, Nat.le_refl _, Or.inr (Or.inl (h2 hin))⟩
+  · exact ⟨0, Nat.zero_le _, Or.inr (Or.inl (h1 hin))⟩
+
+
 /-! ## the clean-up converges -/
 
 open RV.Props.Traffic (expW tick tickE tick_noFresh NoFresh runGrace_nofresh expW_tick_le expW_le_one tickE_ne_fresh)
